@@ -316,6 +316,34 @@ def rt_real(seed, n):
             out.append(dict(name='rt:%s:returned-table-equals-the-rule-folded-over-the-experience' % algo, ok=ok,
                             witness=dict(alpha=alpha, eps=eps, temp=temp, q0=q0, gamma=g, seed=k, got=repr(dict(res.q_values)), want=repr(q))))
             out.append(dict(name='rt:%s:global-generator-untouched' % algo, ok=untouched, witness=dict(seed=k)))
+        # a learner OBJECT that is reused on a second, different model (mirrored: state 0 is the absorbing one, other action sets) must behave like a fresh one
+        T2 = {(2, 'l'): {1: .6, 2: .4}, (2, 'r'): {0: 1.}, (1, 'r'): {0: .5, 2: .5}, (1, 'l'): {1: 1.}, (0, 'l'): {0: 1.}}
+        acts2 = {2: ('l', 'r'), 1: ('r', 'l'), 0: ('l',)}
+        m2 = QuickTabularMDP(next_state_dist=lambda s, a: DictDistribution(T2[(s, a)]), reward=lambda s, a, ns: -1. - .5 * s, actions=lambda s: acts2[s],
+                             initial_state_dist=DictDistribution({2: .5, 1: .5}), is_absorbing=lambda s: s == 0, discount_rate=g)
+        for algo in ('QLearning', 'SARSA', 'ExpectedSARSA', 'DoubleQLearning'):
+            mk = lambda: getattr(td, algo)(episodes=3, step_size=alpha, rand_choose=eps, softmax_temp=temp, initial_q=q0, seed=k)
+            from symrun.driver import time_limit, CallTimeLimit
+            import time as _time
+            t_ = _time.time()
+            r_fresh = mk().train_on(m2)
+            fresh_s = _time.time() - t_
+            reused = mk()
+            reused.train_on(m)
+            try:
+                with time_limit(30):          # a fresh learner needs milliseconds here
+                    r_reused = reused.train_on(m2)
+            except CallTimeLimit:
+                out.append(dict(name='rt:%s:a-reused-learner-object-equals-a-fresh-one-on-a-second-model;absorbing-rows-0' % algo, ok=False,
+                                witness=dict(alpha=alpha, eps=eps, temp=temp, q0=q0, gamma=g, seed=k), detail='the reused learner did not return within 30 s; a fresh one took %.3f s' % fresh_s))
+                continue
+            same = set(r_reused.q_values) == set(r_fresh.q_values) and all(
+                set(r_reused.q_values[s]) == set(r_fresh.q_values[s]) and all(abs(r_reused.q_values[s][a] - r_fresh.q_values[s][a]) < 1e-12 for a in r_fresh.q_values[s])
+                for s in r_fresh.q_values)
+            zero_abs = all(v_ == 0 for v_ in r_reused.q_values.get(0, {}).values())
+            out.append(dict(name='rt:%s:a-reused-learner-object-equals-a-fresh-one-on-a-second-model;absorbing-rows-0' % algo, ok=bool(same and zero_abs),
+                            witness=dict(alpha=alpha, eps=eps, temp=temp, q0=q0, gamma=g, seed=k, reused=repr({s: dict(v_) for s, v_ in r_reused.q_values.items()}),
+                                         fresh=repr({s: dict(v_) for s, v_ in r_fresh.q_values.items()}))))
     return out
 
 
